@@ -43,15 +43,11 @@
 (* the case's grammar must be LR(1) (a conflict reached during evaluation  *)
 (* is reported and the case is discarded by the orchestrator).             *)
 (***************************************************************************)
-EXTENDS CanonLR, TLC, Json, IOUtils
+EXTENDS CanonLR, SemVal, TLC, Json, IOUtils
 
 Cases == JsonDeserialize(IOEnv.EVAL_CASES)
 NC == Len(Cases)
 PreOf == [k \in 1..NC |-> Pre(Cases[k].G)]
-
-(* token k (1-based position in the input) spans these locations *)
-TokLo(k) == 10 * k + 3
-TokHi(k) == 10 * k + 7
 
 NoLa == [t |-> "none", k |-> 0]
 EofLa == [t |-> EOF, k |-> 0]
@@ -89,7 +85,7 @@ Init == /\ c \in {k \in 1..NC : LR1Of[k]}
 Pull ==
   /\ res = Running /\ la = NoLa
   /\ \/ /\ pulled < Cases[c].n
-        /\ \E t \in TSet(GC) :
+        /\ \E t \in {x \in TSet(GC) : x # "error"} :   \* `!` never occurs in an input
              /\ la' = [t |-> t, k |-> pulled + 1]
              /\ inp' = Append(inp, t)
         /\ pulled' = pulled + 1
@@ -101,7 +97,7 @@ Pull ==
         /\ UNCHANGED <<la, inp, pulled>>
   /\ UNCHANGED <<c, stk, evs>>
 
-(* ---- values ---- *)
+(* ---- values (SemVal.tla) ---- *)
 (* position e of an empty span: start of the lookahead token, else the end
    of the last symbol on the stack, else the default location 0 *)
 EmptyPos == IF la.t # EOF THEN TokLo(la.k)
@@ -109,44 +105,6 @@ EmptyPos == IF la.t # EOF THEN TokLo(la.k)
 
 (* kids: the m = Len(Rhs) topmost stack entries, in order *)
 Kids(m) == SubSeq(stk, Len(stk) - m + 1, Len(stk))
-
-SpanLo(kids) == IF kids = <<>> THEN EmptyPos ELSE kids[1].lo
-SpanHi(kids) == IF kids = <<>> THEN EmptyPos ELSE kids[Len(kids)].hi
-
-SymValue(kids, s) ==
-  IF s.k = "sym" THEN kids[s.i].v
-  ELSE IF s.k = "L"
-       THEN (IF s.i < Len(kids) THEN kids[s.i + 1].lo
-             ELSE IF kids # <<>> THEN kids[Len(kids)].hi ELSE EmptyPos)
-       ELSE (IF s.i > 0 THEN kids[s.i].hi
-             ELSE IF kids # <<>> THEN kids[1].lo ELSE EmptyPos)
-
-(* indices (into syms) of the symbols whose values are handed to the action *)
-Handed(p) == LET S == PC[p].syms
-                 sel == {i \in DOMAIN S : S[i].sel}
-             IN IF sel # {} \/ PC[p].exact THEN sel ELSE DOMAIN S
-
-RECURSIVE SeqOfSet(_)
-SeqOfSet(S) == IF S = {} THEN <<>>
-               ELSE LET x == CHOOSE y \in S : \A z \in S : y <= z
-                    IN <<x>> \o SeqOfSet(S \ {x})
-
-HandedValues(p, kids) == LET idx == SeqOfSet(Handed(p))
-                         IN [j \in DOMAIN idx |-> SymValue(kids, PC[p].syms[idx[j]])]
-
-ProdValue(p, kids) ==
-  LET hv == HandedValues(p, kids) IN
-  IF PC[p].form = "none"
-  THEN (IF PC[p].unit THEN <<"u">>
-        ELSE IF Len(hv) = 1 THEN hv[1]
-        ELSE IF Len(hv) = 0 THEN <<"u">> ELSE <<"t">> \o hv)
-  ELSE <<"n", PC[p].tag>> \o hv
-
-Fails(p, kids) ==
-  /\ PC[p].form = "fallible" /\ PC[p].fail.on
-  /\ SymValue(kids, PC[p].syms[PC[p].fail.s]) % PC[p].fail.m = PC[p].fail.r
-
-RunsCode(p) == PC[p].form \in {"user", "fallible"}
 
 (* ---- parser steps (canonical LR(1) actions of the top state) ---- *)
 Tok == la.t
@@ -169,15 +127,15 @@ Reduce ==
      IN IF p = Cases[c].sp
         THEN /\ res' = [kind |-> "ok", value |-> kids[1].v]
              /\ UNCHANGED <<stk, evs>>
-        ELSE /\ evs' = IF RunsCode(p) THEN Append(evs, <<PC[p].tag, pulled>>) ELSE evs
-             /\ IF Fails(p, kids)
+        ELSE /\ evs' = IF RunsCode(PC[p]) THEN Append(evs, <<PC[p].tag, pulled>>) ELSE evs
+             /\ IF Fails(PC[p], kids, EmptyPos)
                 THEN /\ res' = [kind |-> "user", tag |-> PC[p].tag]
                      /\ UNCHANGED stk
                 ELSE LET base == SubSeq(stk, 1, Len(stk) - m)
                          from == base[Len(base)].I
                      IN /\ stk' = Append(base, [I |-> Goto(GC, PreOf[c], from, Lhs(GC, p)),
-                                                v |-> ProdValue(p, kids),
-                                                lo |-> SpanLo(kids), hi |-> SpanHi(kids)])
+                                                v |-> ProdValue(PC[p], kids, EmptyPos),
+                                                lo |-> SpanLo(kids, EmptyPos), hi |-> SpanHi(kids, EmptyPos)])
                         /\ UNCHANGED res
   /\ UNCHANGED <<c, la, pulled, inp>>
 
